@@ -39,9 +39,10 @@ EXT = {"user": [".dat", ".bin", ".v2.dat"], "csv": [".csv", ".txt", ".asc"],
 def clamp_year(t):
     """all filesets of a history must be able to name every period, also with
     two-digit years"""
-    if 1965 <= t.year <= 2064:
+    if 1966 <= t.year <= 2063:
+        # (ends derived from a coverage or a partial end stay in 1965-2064)
         return t
-    return t.replace(year=2018, day=min(t.day, 28))
+    return t.replace(year=2018 if (t.month, t.day) != (2, 29) else 2016)
 
 
 @st.composite
@@ -74,7 +75,7 @@ def periods_for(draw, tpl, anchor):
         s, e = clamp_year(f["s"]), clamp_year(f["e"])
         if e < s or (e - s) != (f["e"] - f["s"]):
             e = s + (f["e"] - f["s"])
-            if not 1965 <= e.year <= 2064:
+            if not 1966 <= e.year <= 2063:
                 e = s
         out.append({"s": s, "e": e, "attrs": f["attrs"]})
     return out
@@ -530,7 +531,7 @@ def single_cases(draw):
     s = clamp_year(draw(G.instants("second")))
     e = s + dt.timedelta(seconds=draw(st.sampled_from([0, 1, 3600, 86400,
                                                        40 * 86400])))
-    e = e if 1965 <= e.year <= 2064 else s
+    e = e if 1966 <= e.year <= 2063 else s
     user = {}
     specs = []
     for k in range(2):
